@@ -93,7 +93,7 @@ type ContractFile struct {
 	NClauses int
 }
 
-var keywordRe = regexp.MustCompile(`^(func|extern|spec|pred|lemma|axiom|requires|ensures|invariant|decreases|loop|modifies|assert|trusted|vars|assume|call|conclude)\b`)
+var keywordRe = regexp.MustCompile(`^(func|extern|spec|pred|lemma|axiom|requires|ensures|invariant|decreases|loop|modifies|assert|trusted|vars|assume|call|exec|conclude|order|elems|recv|wf|less|key)\b`)
 var labelRe = regexp.MustCompile(`^([A-Za-z_][A-Za-z0-9_.]*):([^:].*)$`)
 
 func ParseContractFile(path, pkg string) (*ContractFile, error) {
@@ -125,6 +125,80 @@ func ParseContractFile(path, pkg string) (*ContractFile, error) {
 			items[len(items)-1].text += " " + body
 		}
 	}
+	// expand "order" blocks (strict-total-order laws of a comparator) into four lemmas each
+	{
+		var out []rawLine
+		for i := 0; i < len(items); i++ {
+			it := items[i]
+			if !strings.HasPrefix(it.text, "order ") {
+				out = append(out, it)
+				continue
+			}
+			head := strings.TrimSpace(strings.TrimPrefix(it.text, "order"))
+			var elemT, recv, wf, less, key string
+			j := i + 1
+			for ; j < len(items); j++ {
+				t := items[j].text
+				switch {
+				case strings.HasPrefix(t, "elems "):
+					elemT = strings.TrimSpace(strings.TrimPrefix(t, "elems"))
+				case strings.HasPrefix(t, "recv "):
+					recv = strings.TrimSpace(strings.TrimPrefix(t, "recv"))
+				case strings.HasPrefix(t, "wf "):
+					wf = strings.TrimSpace(strings.TrimPrefix(t, "wf"))
+				case strings.HasPrefix(t, "less "):
+					less = strings.TrimSpace(strings.TrimPrefix(t, "less"))
+				case strings.HasPrefix(t, "key "):
+					key = strings.TrimSpace(strings.TrimPrefix(t, "key"))
+				default:
+					goto done
+				}
+			}
+		done:
+			i = j - 1
+			hf := strings.Fields(head)
+			name := hf[0]
+			opts := strings.Join(hf[1:], " ")
+			if elemT == "" || less == "" || key == "" {
+				return nil, fmt.Errorf("%s:%d: order %s needs elems, less and key", path, it.line, name)
+			}
+			sub := func(t, x, y string) string {
+				return strings.ReplaceAll(strings.ReplaceAll(t, "$x", x), "$y", y)
+			}
+			mk := func(law string, vars []string, calls [][2]string, concl string) {
+				out = append(out, rawLine{fmt.Sprintf("lemma %s.%s %s", name, law, opts), it.line})
+				vs := ""
+				for k, v := range vars {
+					if k > 0 {
+						vs += ", "
+					}
+					vs += v + " " + elemT
+				}
+				if recv != "" {
+					vs = recv + ", " + vs
+				}
+				out = append(out, rawLine{"vars " + vs, it.line})
+				if wf != "" {
+					for _, v := range vars {
+						out = append(out, rawLine{"assume " + sub(wf, v, v), it.line})
+					}
+				}
+				for k, c := range calls {
+					args := c[0] + ", " + c[1]
+					if recv != "" {
+						args = strings.Fields(recv)[0] + ", " + args
+					}
+					out = append(out, rawLine{fmt.Sprintf("exec r%d := %s(%s)", k, less, args), it.line})
+				}
+				out = append(out, rawLine{"conclude " + law + ": " + concl, it.line})
+			}
+			mk("irreflexive", []string{"a"}, [][2]string{{"a", "a"}}, "!r0")
+			mk("asymmetric", []string{"a", "b"}, [][2]string{{"a", "b"}, {"b", "a"}}, "!(r0 && r1)")
+			mk("transitive", []string{"a", "b", "c"}, [][2]string{{"a", "b"}, {"b", "c"}, {"a", "c"}}, "r0 && r1 ==> r2")
+			mk("total", []string{"a", "b"}, [][2]string{{"a", "b"}, {"b", "a"}}, "!r0 && !r1 ==> "+sub(key, "a", "b"))
+		}
+		items = out
+	}
 	var cur *FuncContract
 	var curLoop *LoopContract
 	var curLemma *Lemma
@@ -150,6 +224,9 @@ func ParseContractFile(path, pkg string) (*ContractFile, error) {
 		switch kw {
 		case "func", "extern":
 			f := strings.Fields(rest)
+			if kw == "extern" && len(f) > 0 && f[0] == "func" {
+				f = f[1:]
+			}
 			if len(f) == 0 {
 				return nil, fmt.Errorf("%s:%d: func needs a name", path, it.line)
 			}
@@ -319,12 +396,12 @@ func ParseContractFile(path, pkg string) (*ContractFile, error) {
 				return nil, err
 			}
 			curLemma.Steps = append(curLemma.Steps, &LemmaStep{Kind: kw, Label: c.Label, Text: c.Text, E: c.E, Line: it.line})
-		case "call":
+		case "call", "exec":
 			if curLemma == nil {
 				return nil, fmt.Errorf("%s:%d: call outside lemma", path, it.line)
 			}
 			// call r1, r2 := F(args)
-			st := &LemmaStep{Kind: "call", Text: rest, Line: it.line}
+			st := &LemmaStep{Kind: kw, Text: rest, Line: it.line}
 			rhs := rest
 			if k := strings.Index(rest, ":="); k >= 0 {
 				for _, r := range strings.Split(rest[:k], ",") {
